@@ -95,6 +95,15 @@ func errorGuards(pk *packages.Package, fd *ast.FuncDecl) []errGuard {
 			} else {
 				g.conds = append(g.conds, &ast.UnaryExpr{Op: token.NOT, X: f.e})
 			}
+			// the call runs for any of several values (a lookup in a constant table that hit, an
+			// `a == K1 || a == K2` guard): each value is one of the conditions it runs under
+			if ds := disjuncts(f.e); !f.neg && len(ds) > 1 {
+				for _, dj := range ds {
+					if _, op, r, ok := cmpFact(dj, true); ok && op == token.EQL {
+						g.conds = append(g.conds, r)
+					}
+				}
+			}
 			if l, op, r, ok := cmpFact(f.e, !f.neg); ok {
 				g.conds = append(g.conds, &ast.BinaryExpr{X: l, Op: op, Y: r})
 				if orig, isBE := ast.Unparen(f.e).(*ast.BinaryExpr); isBE && orig.OpPos == token.NoPos && !f.neg {
